@@ -199,6 +199,9 @@ func c03GuardIntact(b []byte) bool {
 }
 
 func c03Data(tag byte, n int) []byte {
+	if n == 0 && tag&0x40 != 0 {
+		return nil // zero-length data as a nil slice (extension calls; the private-data calls use an empty non-nil one)
+	}
 	b := make([]byte, n, n+8)
 	for i := n; i < n+8; i++ {
 		b[:n+8][i] = 0xEE
